@@ -889,9 +889,8 @@ pub fn random_plan(rng: &mut Rng, max_size: u32) -> C11Plan {
             ("firmware/extra", true),
             ("update.spec", false),
             ("APP1/update.spec", false),
-            // a directory that merely bears a recognised name is not a recognised file
-            ("app3/update.spec", true),
-            ("firmware/kernel.gz", true),
+            // (a *directory* bearing a recognised file name is deliberately not generated: whether it is
+            // ignored, refused or announced lies outside what the statement quantifies over)
         ];
         let (p, d) = *rng.pick(&cands);
         if d && files.iter().any(|(pi, _)| ID_TABLE[*pi as usize].0 == p) {
